@@ -12,7 +12,8 @@
 //     fix in /repo without flipping the flag breaks a theorem): whether the `omitempty` case of
 //     buildTagFields assigns to a parameter (leak), the pointer tests of oj's tightSlice/tightMap,
 //     whether alt's reflectMap calls isNil, the guards of registerComposer and recomp on
-//     `c.rtype`, whether getTypeStruct selects structEmptyMap and which flag newFinfo hands to it.
+//     `c.rtype`, whether getTypeStruct selects structEmptyMap, which flag newFinfo hands to it and
+//     what the builders pass for that flag.
 //
 // It fails loudly on source shapes it cannot read.
 package main
@@ -355,6 +356,43 @@ func rflSourceFacts(repo string, b *strings.Builder) error {
 			return fmt.Errorf("reflect extractor: %s.newFinfo: no getTypeStruct call", pkg)
 		}
 		fmt.Fprintf(b, "/-- %s/finfo.go newFinfo: the flag handed to getTypeStruct for the nested struct type, per call -/\ndef %sNewFinfoNestFlags : List String := %s\n\n", pkg, pkg, rflLeanList(flags))
+		// what the builders of sinfo.go pass for newFinfo's parameter `nestOmit` (none before /repo 9b6b623)
+		nestIdx := -1
+		pi := 0
+		for _, fl := range nf.Type.Params.List {
+			for _, n := range fl.Names {
+				if n.Name == "nestOmit" {
+					nestIdx = pi
+				}
+				pi++
+			}
+		}
+		var nestArgs []string
+		if nestIdx >= 0 {
+			fs3, fsi, err := rflParse(repo, pkg, "sinfo.go")
+			if err != nil {
+				return err
+			}
+			bad := false
+			ast.Inspect(fsi, func(n ast.Node) bool {
+				ce, ok := n.(*ast.CallExpr)
+				if !ok {
+					return true
+				}
+				if id, ok := ce.Fun.(*ast.Ident); ok && id.Name == "newFinfo" {
+					if len(ce.Args) != pi {
+						bad = true
+						return true
+					}
+					nestArgs = append(nestArgs, rflExprText(fs3, ce.Args[nestIdx]))
+				}
+				return true
+			})
+			if bad || len(nestArgs) == 0 {
+				return fmt.Errorf("reflect extractor: %s/sinfo.go: newFinfo calls do not match its signature", pkg)
+			}
+		}
+		fmt.Fprintf(b, "/-- %s/sinfo.go: what each builder passes for newFinfo's parameter `nestOmit` (the flag nested plans are built with); empty when newFinfo has no such parameter -/\ndef %sNewFinfoNestArgs : List String := %s\n\n", pkg, pkg, rflLeanList(nestArgs))
 	}
 	// oj tight writers
 	fset, f, err := rflParse(repo, "oj", "tight.go")
